@@ -57,7 +57,7 @@ def oracle(fl, raw, rules):
             nested = [rel for rel in before if rel not in src and any(rel.startswith(d + "/") for d in stale_dirs)]
             spurious = (not extra_left) and (not missing) and len(nested) >= raw["nerr"] and not raw.get("typeconf")
             fails.append({"path": nested[0] if nested else None, "why": "%d error(s) reported while removing stale entries" % raw["nerr"],
-                          "klass": "stale-dir-enoent" if spurious else None})
+                          "klass": None})
     return fails
 
 
